@@ -97,7 +97,10 @@ def data_params(draw, rep=None, structure=None, max_n=300):
         n = draw(st.one_of(st.integers(1, 12), st.integers(1, max_n)))
     return {'n_features': nf, 'n_samples': n, 'cardinality': card, 'low': low, 'high': high, 'k': k, 'seed': seed,
             'ensure_rep': ensure_rep, 'random_values': random_values, 'structure': struct,
-            'containers': draw(st.sampled_from(['list', 'array'])), 'np_seed': draw(st.integers(0, 2**32 - 1))}
+            'containers': draw(st.sampled_from(['list', 'array'])), 'np_seed': draw(st.integers(0, 2**32 - 1)),
+            # history of the generator object: 0 = fresh object; otherwise the object has already produced a data set for the same
+            # sizes/structure/seed but a value range shifted by this much (all argument constraints are translation-invariant)
+            'prior_shift': draw(st.sampled_from([0, 0, 13, -5, 1000]))}
 
 
 @st.composite
@@ -153,6 +156,13 @@ def cut(kind, fn, *a, **k):
 
 
 def call_generate(cc, case, np_seed, seed=None, kind='C19/domain'):
+    shift = int(case.get('prior_shift') or 0)
+    if shift:
+        np.random.seed((np_seed + 17) % 2**32)
+        cut(kind, cc.generate_data,
+            n_features=case['n_features'], n_samples=case['n_samples'], cardinality=case['cardinality'],
+            structure=materialize_structure(case), ensure_rep=case['ensure_rep'], random_values=case['random_values'],
+            low=case['low'] + shift, high=case['high'] + shift, k=case['k'], seed=case['seed'] if seed is None else seed)
     np.random.seed(np_seed)
     return cut(
         kind, cc.generate_data,
@@ -200,7 +210,7 @@ def oracle_domain(case, rec):
             rec.cls('structure:>=2-kinds+gap')
     else:
         rec.cls('no-structure')
-    rec.cls('random_values' if case['random_values'] else 'range-values')
+    rec.cls('random_values' if case['random_values'] else 'range-values', 'reused-generator' if case.get('prior_shift') else 'fresh-generator')
     if not isinstance(X, np.ndarray) or X.shape != (case['n_samples'], case['n_features']):
         raise Violation(f'shape {getattr(X, "shape", None)} != (n_samples, n_features) = '
                         f'({case["n_samples"]}, {case["n_features"]})', kind='C19/shape')
